@@ -76,6 +76,8 @@ func init() {
 		for i, sh := range optimiserBait {
 			fixed = append(fixed, mkShapeProgram("O"+itoa(100+i), sh))
 		}
+		// loop values the optimiser turns into re-run values (unoptimised: rebuilt per entry)
+		fixed = append(fixed, loopRerunTable()...)
 		spec := &diffSpec{
 			profiles: []*profile{controlFlowProfile(), effectProfile(), scopingProfile(), delegationProfile(), bystanderProfile()}, batchSize: 30, batches: rs.vol(20, 500),
 			fixed: fixed,
@@ -249,6 +251,26 @@ func init() {
 			p.Entries = []*Entry{{Name: name + "G", Kind: "drive", Call: "$P" + name + "G($0)", Elem: "int", Inputs: allInputs(1, 0, 3), Scripts: []string{"std"}}}
 			spec.fixed = append(spec.fixed, p)
 		}
+		// bare host: the injected construct is the whole generator body, so every yield of the function sits inside it
+		// (a function whose yields are all missed by the compiler's generator discovery is emitted unchanged)
+		nbare := 0
+		for _, inj := range all {
+			if inj.control || !(strings.Contains(inj.stmt, "$YIELD") || strings.Contains(inj.stmt, "$YFROM")) {
+				continue
+			}
+			n++
+			nbare++
+			name := "J" + itoa(1000+n)
+			p := &Program{Name: name, Profile: "c12-bare-host", Tags: []string{"inject:" + inj.name, "bare-host"}}
+			body := []*Stmt{{K: "raw", Raw: strings.ReplaceAll(inj.stmt, "$N", name)}}
+			p.Decls = []*Decl{{Kind: "gen", Name: name + "G", Params: []Param{{"a", "int"}}, Elem: "int", Body: body}}
+			if inj.decls != "" {
+				p.Decls = append(p.Decls, &Decl{Kind: "raw", Raw: strings.ReplaceAll(inj.decls, "$N", name)})
+			}
+			p.Entries = []*Entry{{Name: name + "G", Kind: "drive", Call: "$P" + name + "G($0)", Elem: "int", Inputs: allInputs(1, 0, 3), Scripts: []string{"std"}}}
+			spec.fixed = append(spec.fixed, p)
+		}
+		rs.exh = append(rs.exh, itoa(nbare)+" yielding injections as the whole body of the generator (bare host)")
 		for _, bs := range badSignatures {
 			n++
 			name := "J" + itoa(1000+n)
